@@ -2,12 +2,14 @@
 pub mod bins;
 pub mod inst;
 pub mod membal;
+pub mod xducer;
 
 pub fn dispatch(tokens: &[&str]) -> Option<String> {
     let (c, args) = tokens.split_first()?;
     Some(match *c {
         "bins" => bins::run(args),
         "membal" => membal::run(args),
+        "xducer" => xducer::run(args),
         _ => return None,
     })
 }
